@@ -409,7 +409,7 @@ def run_swaps(run, rng, case, algo, mpo, stats, nswap):
 def search(run, rng, quick):
     t0 = time.time()
     budget = 55 if quick else 560          # safety stop only; the case count below is what normally ends the run
-    ncase = 700 if quick else 1800
+    ncase = 600 if quick else 1800
     stats = dict(n=0, worst=0.0, swaps_ok=0, shrunk=set())
     if not probe_kron_order():
         run.violation("todense:kron-order-probe", dict(op="Mpo of Z(site0) n(site1) on spin x SHO(3)", expected="kron(Z, n)"), True)
